@@ -38,6 +38,7 @@ func checkC10(c *Ctx, p *Prog, r *Result) {
 	r.floor("C10.decoded-pointers", 30)
 	c10ErrorConversion(p, r)
 	c10ContentLength(p, r)
+	c10PipeBuffer(p, r, f.Order)
 }
 
 // c10ErrorConversion: each Respond returns its response only under err==nil,
